@@ -5,7 +5,9 @@ Decided: Doc / Delegates / Threshold / Version values can only be built by their
 validating constructors (typestate: private fields + who-may-construct over every
 aggregate and constructor-as-function use in the workspace, derive-generated
 bodies and constants included); the validators reach their Ok exits only behind
-the range checks; the repository id is derived from the canonical encoding.
+the range checks; the repository id is derived from the canonical encoding,
+so the canonical encoder's rules (C18) are obligations here too; `RawDoc::verified` passes every field
+through unchanged (validation does not rewrite the document).
 Not decided: decode(encode(d)) == d."""
 import re
 
